@@ -512,7 +512,65 @@ def report(ctx, cases, obs, meta, codes, n_corpus=0):
                         {'case': case, 'observed': {k: o[k] for k in ('out', 'code', 'exc') if k in o}, 'from_corpus': i < n_corpus})
 
 
+GROWING_NAMES = ['größe', 'straße', 'ß', 'ﬁeld', 'ŉx', 'maß', 'ǰ', 'ﬂow', 'eﬀort', 'ΐ']     # str.upper() is longer than the name
+
+
+def unicode_case_stream(ctx):
+    """field names whose upper-case form has MORE code points than the name (ß -> SS, ﬁ -> FI, ...): outside the model
+    (whose case mapping is the ASCII one), judged on the implementation's text alone - every line has the same visible
+    width (code points without colour codes) and the header shows each caption in capitals, in field order"""
+    import random as _random
+    import re as _re
+    rng = _random.Random('C20/growing-captions/%s' % ctx.seed)
+    n = 12 if ctx.tier == 'quick' else 150
+    cases = []
+    for _ in range(n):
+        c = gen_sheet_case(rng)
+        for call in c['calls']:
+            if call['via'] != 'print':
+                continue
+            fs = [f for f in (call['fields'] or ['id', 'name'])][:4]
+            for _ in range(rng.randint(1, 2)):
+                fs.insert(rng.randint(0, len(fs)), rng.choice(GROWING_NAMES))
+            call['fields'] = fs
+        cases.append(c)
+    for c in cases:
+        c['growing_captions'] = True
+    chunks = [cases[i:i + 60] for i in range(0, len(cases), 60)]
+    obs = [o for part in ctx.impl_run_many('c20_impl', chunks) for o in part]
+    stat = {'calls': 0, 'lines': 0}
+    for c, o in zip(cases, obs):
+        judge_growing(ctx, c, o, stat)
+    return stat
+
+
+def judge_growing(ctx, c, o, stat):
+    import re as _re
+    ansi = _re.compile('\x1b\\[[0-9;]*m')
+    for call, oc in zip(c['calls'], o['calls']):
+        if oc.get('skip') or call['via'] != 'print' or oc.get('code') != 0:
+            continue
+        lines = [ansi.sub('', l) for l in oc['out'].split('\n')]
+        stat['calls'] += 1
+        stat['lines'] += len(lines)
+        widths = sorted(set(len(l) for l in lines))
+        small = dict(c, calls=[call])
+        if len(widths) > 1:
+            ctx.failure('C20/sheet width (caption that grows in capitals)', 'lines of different visible width %s with fields %r'
+                        % (widths, call['fields']), {'case': small, 'observed': oc})
+            continue
+        pos = 0
+        for f in call['fields']:
+            k = lines[0].find(f.upper(), pos)
+            if k < 0:
+                ctx.failure('C20/sheet header (caption that grows in capitals)', 'the header line does not show %r for the field %r '
+                            '(in field order)' % (f.upper(), f), {'case': small, 'observed': oc})
+                break
+            pos = k + len(f.upper())
+
+
 def run(ctx):
+    ctx.coverage_unicode_case = unicode_case_stream(ctx)
     n_sheet, n_usage = (330, 160) if ctx.tier == 'quick' else (6000, 3000)
     cases = list(CORPUS) + [gen_sheet_case(ctx.rng) for _ in range(n_sheet)] + [gen_usage_case(ctx.rng) for _ in range(n_usage)]
     obs, meta, codes = evaluate(ctx, cases)
@@ -585,6 +643,13 @@ def run(ctx):
 
 def replay(ctx, rep):
     case = rep['case']['case']
+    if case.get('growing_captions'):
+        o = ctx.impl_run_many('c20_impl', [[case]])[0][0]
+        print('replay: case %s' % json.dumps(case)[:4000])
+        print('replay: implementation printed:\n%s' % o['calls'][0].get('out'))
+        judge_growing(ctx, case, o, {'calls': 0, 'lines': 0})
+        ctx.coverage.update(evaluations=1, distinct_nontrivial=1, rule='replay of one case (judged on the printed text)', samples=[case])
+        return
     obs, meta, codes = evaluate(ctx, [case])
     print('replay: case %s' % json.dumps(case)[:4000])
     o = obs[0]
